@@ -65,7 +65,7 @@ func frameTransportEffects(c *core.Ctx, R string) {
 				units = append(units, u.AllUnits()...)
 			}
 		}
-		nIs, nRet, nErr := 0, 0, 0
+		nIs, nRet, nErr, nStop := 0, 0, 0, 0
 		for _, u := range units {
 			info := u.Info()
 			g := u.Graph()
@@ -147,10 +147,29 @@ func frameTransportEffects(c *core.Ctx, R string) {
 				reported := len(emitLocs) > 0 && g.DominatesAny(emitLocs, r.Loc)
 				c.Check(R, keyf("%s/early-return-is-a-reported-failure", u.Key), r.Stmt.Pos(), onErr && reported, keyf("on an error edge (or the close frame): %v; preceded by Emit(close|error) on every path: %v", onErr, reported))
 			}
+			// a reported failure ends the operation: nothing but logging can run after the Emit(close|error) of a failure
+			// (the explicit `return` that follows it may be omitted when it is the last statement anyway)
+			for _, e := range append(append([]*Ev(nil), emErr...), emClose...) {
+				if strings.HasSuffix(u.Root().Key, ".message") {
+					continue // the reader loop goes on to the next NextReader, which fails and reports again
+				}
+				var after []string
+				for _, cl := range u.Calls() {
+					if cl.Expr == e.Expr || cl.Deferred || isLogCall(cl) {
+						continue
+					}
+					if cl.Pos() > e.Pos() && g.CanFollow(e.Loc, cl.Loc) {
+						after = append(after, cl.Name)
+					}
+				}
+				nStop++
+				c.Check(R, keyf("%s/emit(%s)-ends-the-operation", u.Key, e.Event), e.Pos(), len(after) == 0, keyf("calls that can still run after the failure was reported: %v", after))
+			}
 			_ = info
 		}
 		c.Need(R, "ErrClosed tests in "+sp.typ, nIs, 6)
-		c.Need(R, "early returns in "+sp.typ, nRet, 6)
+		c.Need(R, "failure reports in send/write of "+sp.typ, nStop, 2)
+		_ = nRet
 		c.Need(R, "error emits in "+sp.typ, nErr, 6)
 		// ---- the pre-encoded shortcut ----
 		if u := c.Fn(R, base+"send"); u != nil {
